@@ -4,11 +4,13 @@
 package packfile
 
 import (
+	"bytes"
 	"encoding/binary"
 	"encoding/hex"
 	"errors"
 	"fmt"
 	"io"
+	"math"
 	mathbits "math/bits"
 
 	"github.com/wrgl/wrgl/pkg/encoding"
@@ -176,18 +178,19 @@ func (r *PackfileReader) ReadObject() (objType int, b []byte, err error) {
 	if err != nil {
 		return
 	}
-	var read uint64 = 0
-	b = make([]byte, int(u))
-	for read < u {
-		n, err := r.r.Read(b[read:])
-		if err != nil && err != io.EOF {
-			return 0, nil, err
-		}
-		read += uint64(n)
-		if errors.Is(err, io.EOF) && read < u {
-			return 0, nil, io.ErrUnexpectedEOF
-		}
+	if u > math.MaxInt64 {
+		return 0, nil, fmt.Errorf("reading object: size %d is too large", u)
 	}
+	// grow the buffer as data actually arrives rather than trusting the announced size
+	buf := bytes.NewBuffer(nil)
+	_, err = io.CopyN(buf, r.r, int64(u))
+	if errors.Is(err, io.EOF) {
+		return 0, nil, io.ErrUnexpectedEOF
+	}
+	if err != nil {
+		return 0, nil, err
+	}
+	b = buf.Bytes()
 	return
 }
 
